@@ -152,7 +152,8 @@ pub fn frames_hint(wire: &[u8]) -> Value {
         let len = u32::from_be_bytes([wire[p + 1], wire[p + 2], wire[p + 3], wire[p + 4]]) as usize;
         if p + 5 + len > wire.len() { break; }
         let payload = &wire[p + 5..p + 5 + len];
-        let z = if flag == 1 {
+        // an empty payload is not a compressed message in any of the three formats
+        let z = if flag == 1 && !payload.is_empty() {
             match zstd::bulk::decompress(payload, 64 << 20) { Ok(v) => json!({"ok":true,"v":bytes_json(&v)}), Err(_) => json!({"ok":false,"v":[]}) }
         } else { json!({"ok":false,"v":[]}) };
         out.push(json!({"off": p as u64, "flag": flag, "len": len as u64, "zstd": z}));
@@ -305,6 +306,12 @@ pub fn gen(seed: u64, tier: &str) -> Vec<Value> {
         // source error in ~15% of server runs
         let role = if rng.gen_bool(0.6) { "server" } else { "client" };
         if rng.gen_bool(0.15) { items.push(json!({"k":"err","code": rng.gen_range(1..17), "msg": str_json("src failed")})); }
+        else if !prost && rng.gen_bool(0.12) {
+            // the codec refuses one message (after writing k bytes of it); messages may follow
+            let k = rng.gen_range(0..4u8);
+            let at = rng.gen_range(0..=items.len());
+            items.insert(at, json!({"k":"encfail","b":[250, 17, k, 1, 2, 3]}));
+        }
         let ncuts = rng.gen_range(0..6);
         let mut cuts: Vec<usize> = (0..ncuts).map(|_| [1usize, 2, 3, 4, 5, 6, 7, 9, 64, 1000][rng.gen_range(0..10)]).collect();
         if sizes.iter().any(|&s| s >= 1000) { cuts.push(4096); }
@@ -337,7 +344,10 @@ pub fn gen_hostile(seed: u64, tier: &str) -> Vec<Value> {
     let mut out = vec![];
     for _ in 0..n {
         let dec_enc = ["identity", "identity", "gzip", "deflate", "zstd"][rng.gen_range(0..5)];
-        let prost = rng.gen_bool(0.2);
+        // pick the mutation class first: for classes that touch payload bytes the prost decodability of the
+        // result is not something the specification can decide, so those use the raw codec only
+        let class_id = rng.gen_range(0..12);
+        let prost = rng.gen_bool(0.25) && matches!(class_id, 0 | 2 | 3 | 4 | 7 | 9 | 10);
         // a valid stream to start from
         let nmsg = rng.gen_range(0..4);
         let mut wire = vec![];
@@ -347,7 +357,8 @@ pub fn gen_hostile(seed: u64, tier: &str) -> Vec<Value> {
             if dec_enc != "identity" && rng.gen_bool(0.7) { wire.extend(frame(1, &compress_with(dec_enc, &payload))); } else { wire.extend(frame(0, &payload)); }
         }
         let class;
-        match rng.gen_range(0..11) {
+        match class_id {
+            11 => { class = "short_compressed_frame"; let k = rng.gen_range(0..6); wire.extend(frame(1, &rand_bytes(&mut rng, k, false))); wire.extend(frame(0, &[5])); }
             0 => { class = "valid"; }
             1 => { class = "bitflip"; if !wire.is_empty() { let i = rng.gen_range(0..wire.len()); wire[i] ^= 1 << rng.gen_range(0..8); } }
             2 => { class = "truncate"; if !wire.is_empty() { let i = rng.gen_range(0..wire.len()); wire.truncate(i); } }
@@ -421,6 +432,7 @@ pub fn gen_limits(seed: u64, tier: &str) -> Vec<Value> {
                             items.push(json!({"k":"msg","b":bytes_json(&rand_bytes(&mut rng, n as usize, false))}));
                             for _ in 0..rng.gen_range(0..3) { if pend && rng.gen_bool(0.5) { items.push(json!({"k":"pend"})); } items.push(json!({"k":"msg","b":bytes_json(&rand_bytes(&mut rng, (l.min(2)) as usize, false))})); }
                             if rng.gen_bool(0.2) { items.push(json!({"k":"msg","b":bytes_json(&rand_bytes(&mut rng, (l + 3) as usize, false))})); }
+                            if rng.gen_bool(0.15) { let at = rng.gen_range(0..=items.len()); items.insert(at, json!({"k":"encfail","b":[250, 17, rng.gen_range(0..4u8), 1, 2, 3]})); }
                             out.push(json!({"kind":"rt","class":"enc_limit","role":role,"enc":"identity","override":false,"codec":"raw",
                                 "bufsz":64,"yield":(*[1usize,30,32768].get(rng.gen_range(0..3)).unwrap()),"limit_enc":l,"limit_dec":-1,"items":items,"cuts":rand_cuts(&mut rng),
                                 "body_pend":[],"tail": if role=="server" {"enc"} else {"none"},"tail_at":0,"extra_polls":3}));
